@@ -56,6 +56,9 @@ pub struct ConcJob {
     /// age every entry by this many seconds before the concurrent phase starts (prefix ops run first)
     #[serde(default)]
     pub prefix: Vec<MOp>,
+    /// echoed in every record so that a record can be traced back to its job
+    #[serde(default)]
+    pub tag: String,
 }
 fn hang_default() -> u64 {
     3000
@@ -298,6 +301,14 @@ pub fn cmd_conc(args: &[String]) -> i32 {
             let stack_snapshot = ex.stack.clone();
             let mut new_stack: Vec<(usize, usize)> = Vec::new();
             let mut chooser = |v: &View| -> usize {
+                if kind == "replay" {
+                    // recorded choices are indices into the enabled set
+                    let c = replay.get(depth).cloned().unwrap_or(0) % v.enabled.len();
+                    last_thread = Some(v.enabled[c]);
+                    new_stack.push((c, v.enabled.len()));
+                    depth += 1;
+                    return c;
+                }
                 // alternatives at this point: continuing the running thread first; switching away
                 // from a still-enabled thread is a preemption and only allowed within the bound
                 let same = last_thread.and_then(|t| v.enabled.iter().position(|x| *x == t));
@@ -376,6 +387,7 @@ pub fn cmd_conc(args: &[String]) -> i32 {
                         let mut line = runner.header_line(&script, "quiesce", 1, &cur2);
                         if let Value::Object(m) = &mut line {
                             m.insert("prog".into(), json!(prog.id));
+                            m.insert("job".into(), json!(job.tag));
                             m.insert("ops".into(), ops_json(&res));
                             m.insert("sts0".into(), sts0.clone());
                             m.insert("ver0".into(), json!(ver0));
@@ -408,7 +420,7 @@ pub fn cmd_conc(args: &[String]) -> i32 {
                 }
                 Outcome::Deadlock | Outcome::Hang => {
                     verdict = if rr.outcome == Outcome::Deadlock { "deadlock".into() } else { "hang".into() };
-                    w.emit(&json!({"ev": verdict, "prog": prog.id, "program": prog.threads.iter().map(|t| t.iter().map(|o| json!({"op": o.op, "f": o.f, "k": o.k, "x": o.x, "sel": if o.sel.is_null() { json!([]) } else { o.sel.clone() }})).collect::<Vec<_>>()).collect::<Vec<_>>(),
+                    w.emit(&json!({"ev": verdict, "prog": prog.id, "job": job.tag, "program": prog.threads.iter().map(|t| t.iter().map(|o| json!({"op": o.op, "f": o.f, "k": o.k, "x": o.x, "sel": if o.sel.is_null() { json!([]) } else { o.sel.clone() }})).collect::<Vec<_>>()).collect::<Vec<_>>(),
                                    "choices": rr.choices, "grants": grants, "blocked": blocked, "fixtures": job.fixtures}));
                     break 'programs;
                 }
